@@ -158,7 +158,11 @@ pub fn work(tier: u8, seed: u64, idx: usize) -> Rec {
         rec.v("differs_after_failed_models", "", format!("fresh process: {:?} ; after {} failed models in this process: {:?}", fresh, failed, after));
     }
     // (c) while 3..15 other OS threads run other models
-    let nthreads = if tier == 0 { 3 + rng.below(4) } else { 3 + rng.below(13) };
+    // (under valgrind the concurrent part is skipped: memcheck cannot follow coroutine stack switches on
+    // secondary OS threads and floods the log with false "invalid read ... anonymous segment" reports;
+    // the sanitizer for this part is ThreadSanitizer, see `./check C16-tsan`)
+    let under_valgrind = std::env::var("LV_UNDER_VALGRIND").is_ok();
+    let nthreads = if under_valgrind { 0 } else if tier == 0 { 3 + rng.below(4) } else { 3 + rng.below(13) };
     let stop = std::sync::Arc::new(std::sync::atomic::AtomicBool::new(false));
     let others: Vec<_> = (0..nthreads)
         .map(|t| {
